@@ -17,11 +17,12 @@
 EXTENDS NbGrid, Json
 
 CONSTANTS Emit
-VARIABLES c
+VARIABLES c, ph
 
 \* ---- runs ------------------------------------------------------------------------------
 Run(k, s, x) == [k |-> k, s |-> s, x |-> x]
 GeoRuns == <<Run("p", <<0>>, FALSE), Run("p", <<1, 2>>, FALSE), Run("t", <<0>>, FALSE)>>
+PairGeoRuns == <<Run("p", <<0>>, FALSE), Run("p", <<1, 2>>, FALSE)>>
 FullRunsX(x) == <<Run("p", <<0>>, x), Run("p", <<1>>, x), Run("p", <<1, 2>>, x),
                   Run("t", <<0>>, x), Run("t", <<1, 2>>, x), Run("t", <<1, 2, 3>>, x), Run("t", <<1, 1, 2>>, x)>>
 FullRuns == FullRunsX(FALSE) \o FullRunsX(TRUE)
@@ -45,7 +46,7 @@ SweepInit(LL, rc2, X1Extra(_), Offs(_), Bases, O2) ==
     IN \E x1 \in NearEdges(L, N) \cup X1Extra(L) : \E d \in Offs(L) : \E b \in Bases : \E o \in O2 :
          c = Conf(MkBox(bx[1], 0, bx[2], 0, 0, bx[3]), rc2,
                   <<AxisVec(ax, x1, b), AxisVec(ax, x1 + d, <<b[1] + o[1], b[2] + o[2]>>)>>,
-                  <<1, 2>>, <<1, 2>>, <<>>, GeoRuns)
+                  <<1, 2>>, <<1, 2>>, <<>>, PairGeoRuns)
 
 \* bead 1 on the corner points Corner(bx) (a set of positions), bead 2 displaced by Diag
 CornerInit(LL, rc2, Corner(_), Diag) ==
@@ -69,15 +70,19 @@ TinyInit(BR, P(_)) ==
     \/ \E p \in P(br.B) : \E t \in 1..2 : c = Conf(br.B, br.rc2, <<p>>, <<t>>, <<1>>, <<>>, FullRuns)
 
 \* ---- the machine ------------------------------------------------------------------------
-\* the wrappers define the initial predicate as a disjunction of families (cfg: INIT MCInit, NEXT Next)
-Next == UNCHANGED c
+(* The wrappers define the family predicate MCFamilies as a disjunction of families (cfg: INIT Init,
+   NEXT Next).  TLC generates and checks initial states in one thread; the second phase exists
+   only so that the expensive evaluation (Check) happens on successor states, i.e. in the
+   worker threads: one configuration = the two states (c, 0) -> (c, 1).                         *)
+Next == ph = 0 /\ ph' = 1 /\ UNCHANGED c
 
 Results(cc) ==
   LET K == Ctx(cc)
       W == SpecData(cc)
   IN [K |-> K, W |-> W,
-      runs |-> [q \in 1..Len(cc.runs) |->
-                  IF cc.runs[q].k = "p" THEN PairRun(cc, K, W, cc.runs[q]) ELSE TripleRun(cc, K, W, cc.runs[q])]]
+      \* TLCEval: evaluate once (a function constructor is lazy in TLC and would be re-evaluated per use)
+      runs |-> TLCEval([q \in 1..Len(cc.runs) |->
+                  IF cc.runs[q].k = "p" THEN PairRun(cc, K, W, cc.runs[q]) ELSE TripleRun(cc, K, W, cc.runs[q])])]
 
 RunsOK(cc, R) == \A q \in 1..Len(cc.runs) :
   IF cc.runs[q].k = "p" THEN PairRunOK(R.K, R.W, R.runs[q]) ELSE TripleRunOK(R.runs[q])
@@ -116,6 +121,7 @@ Vector(cc, R) ==
 
 \* Algo = Spec on every configuration (design level), and the exported vector
 Check ==
+  ph = 1 =>
   LET R == Results(c) IN
   /\ ValidConf(c)
   /\ IF RunsOK(c, R) THEN TRUE ELSE PrintT(<<"Algo # Spec", c, R.runs>>) /\ FALSE
